@@ -5,8 +5,7 @@
     * zero-free ones (`ZF`, Y0/Lemmas/IdZeroFree.lean) denote POSITIVE numbers at every valuation
       (`den_pos_of_obsOnly`), hence have no vanishing denominator (`denNZA_of_obsOnly`): the hypothesis `DenNZ` of
       C10 `canon_den` is discharged for every estimand ID returns.
-  This file is on the id side of the name clash between the expr and id lemma libraries (`Y0.den_mkFrac`,
-  `Y0.mem_dedup'`, `Y0.nodup_dedup'`): it must not import Y0/Lemmas/Sem*.lean.
+  (Kept free of Y0/Lemmas/Sem*.lean: only the id-side libraries and Y0/Spec/SingleWorld.lean are needed.)
 -/
 import Y0.Spec.SingleWorld
 import Y0.Lemmas.TianProb
